@@ -270,6 +270,13 @@ class ScriptedPeer(object):
                     full = reply_json(token)
                     conn.sendall(b"HTTP/1.1 200 OK\r\nContent-Type: application/json-rpc\r\nContent-Length: " + str(len(full) + 50).encode() + b"\r\n\r\n" + full[:5])
                     return
+                elif item == "TRC":
+                    # chunked answer (larger than the client's read size) cut in the middle of its second chunk: the
+                    # client has already parsed part of the body when its read raises
+                    full = reply_json(str(token) + "." * 3000)
+                    conn.sendall(b"HTTP/1.1 200 OK\r\nContent-Type: application/json-rpc\r\nTransfer-Encoding: chunked\r\n\r\n" +
+                                 b"800\r\n" + full[:2048] + b"\r\n" + b"400\r\n" + full[2048:2100])
+                    return
                 elif item == "E0":
                     send(b"200 OK", b"")
                 elif item == "NJ":
